@@ -119,6 +119,18 @@ def Spec.Instr.execDual (i : Nat) (env : Nat → R) (ds : List (Dual R)) : Instr
   | .unary f df a => (getDual ds a).unary f df
   | .binary f dfx dfy a b => (getDual ds a).binary (getDual ds b) f dfx dfy
 
+/-- the program as a function of the trace put in for input `i` (what a closure handed to
+    `Trace::derivative` does): the other inputs are constants -/
+def Spec.Prog.execDualWithFrom (i : Nat) (t : Dual R) (env : Nat → R) :
+    Prog R → List (Dual R) → List (Dual R)
+  | [], ds => ds
+  | ins :: rest, ds =>
+    Spec.Prog.execDualWithFrom i t env rest
+      (ds ++ [if ins.isVar && ds.length == i then t else ins.execDual i env ds])
+
+def Spec.Prog.execDualWith (i : Nat) (t : Dual R) (env : Nat → R) (p : Prog R) : List (Dual R) :=
+  Spec.Prog.execDualWithFrom i t env p []
+
 def Spec.Prog.execDualFrom (i : Nat) (env : Nat → R) : Prog R → List (Dual R) → List (Dual R)
   | [], ds => ds
   | ins :: rest, ds => Spec.Prog.execDualFrom i env rest (ds ++ [ins.execDual i env ds])
